@@ -243,8 +243,9 @@ def finish(pid, tier, mod, results, t0, seed, extra=None, ground_bad=()):
         cov.update(extra)
     ev = dict(property_id=pid, tier=tier, seed=seed, level='model_checking', coverage=cov,
               assumptions=getattr(mod, 'ASSUMPTIONS', []), wall_s=round(time.time() - t0, 2), violations=len(vio_lines))
-    os.makedirs(os.path.join(VERIF, 'evidence'), exist_ok=True)
-    json.dump(ev, open(os.path.join(VERIF, 'evidence', pid + '.json'), 'w'), indent=1, ensure_ascii=False)
+    EVD = os.environ.get('VERIF_EVIDENCE_DIR') or os.path.join(VERIF, 'evidence')
+    os.makedirs(EVD, exist_ok=True)
+    json.dump(ev, open(os.path.join(EVD, pid + '.json'), 'w'), indent=1, ensure_ascii=False)
     for l in lines:
         print(l)
     print('%s %s: %d obligations, %d paths, %d solver queries (%.1fs solver), %d concrete validations, exhaustive=%s, wall %.1fs'
